@@ -51,7 +51,7 @@ def _case(draw, stratum):
         vmax = [float(levels[i % len(levels)]) for i in range(C)]
     else:
         vmax = float(draw(st.one_of(st.sampled_from([100, 200, 950, 1000, 30]), st.integers(30, 2000))))
-    min_transfer = float(draw(st.one_of(st.sampled_from([1, 5, 10, 20]), st.integers(1, 100))))
+    min_transfer = float(draw(st.one_of(st.sampled_from([1, 5, 10, 20]), st.integers(1, 100), st.sampled_from([20.3, 0.5, 7.75, 49.9, 1.01]))))
     case = {"xmin": xmin, "xmax": xmax, "R": R, "C": C, "stock": stock, "mode": mode, "vmax": vmax, "min_transfer": min_transfer, "exec": None}
     if execute:
         case["exec"] = {
